@@ -165,12 +165,20 @@ func runC31(c *Ctx) {
 	sites, esc := callSitesOf(p, enc)
 	c.Check("C31.sites", "recordstore.Path.Encode is only called statically", len(esc) == 0, p.Pos(enc.Pos()), "")
 	c.Floor("C31.sites", len(sites), 3)
+	dupSite := map[ssa.Instruction]bool{}
 	for _, s := range sites {
 		fn := s.Parent()
 		if fn.Synthetic != "" {
 			continue // pointer-receiver wrapper of the value method
 		}
 		c.Analysed(fnName(fn))
+		if dupSite[s] {
+			continue // a site inside a new helper is listed once per caller of the helper
+		}
+		dupSite[s] = true
+		// obligations are keyed by the baseline function the site belongs to (a site
+		// moved into a new helper with one caller keeps its key)
+		fn = baselineOwner(fn)
 		cc := callCommon(s)
 		var start ssa.Value
 		if u, ok := cc.Args[0].(*ssa.UnOp); ok && u.Op == token.MUL {
@@ -254,52 +262,60 @@ func runC31(c *Ctx) {
 	if del != nil {
 		rms := callsIn(del, "os.Remove", "os.RemoveAll")
 		c.Check("C31.delete.single_remove", fnName(del)+": exactly one os.Remove and no os.RemoveAll", len(rms) == 1 && isCallTo(rms[0], "os.Remove"), p.Pos(del.Pos()), fmt.Sprint(len(rms)))
+		// the handler's Encode call: in the handler itself or in a new helper it
+		// (transitively) calls - eachInstr attributes a new helper's body to its callers
 		var encCall *ssa.Call
-		for _, s := range sites {
-			if s.Parent() == del {
-				encCall, _ = s.(*ssa.Call)
+		eachInstr(del, func(i ssa.Instruction) {
+			for _, s := range sites {
+				if s == i {
+					encCall, _ = s.(*ssa.Call)
+				}
 			}
-		}
+		})
 		if len(rms) == 1 && encCall != nil {
 			rm := rms[0].(*ssa.Call)
+			// Values are followed across new-helper boundaries (prop_gen_c31.go): the
+			// result of a call to a new helper is the value it returns, its parameters
+			// are the arguments of that call.
 			// removed name: Encode result, optionally through absolutePathInside(_, x)#0
-			v := stripConv(rm.Call.Args[0])
-			if ex, ok := v.(*ssa.Extract); ok && ex.Index == 0 {
-				if cl, ok := ex.Tuple.(*ssa.Call); ok && calleeName(&cl.Call) == "api.absolutePathInside" {
-					v = stripConv(cl.Call.Args[1])
-				}
+			v := hv{rm.Call.Args[0], nil}.norm()
+			if in, ok := v.throughCall("api.absolutePathInside", 0, 1); ok {
+				v = in
 			}
-			c.Check("C31.delete.removes_encoded_name", fnName(del)+": os.Remove acts on Path{Start}.Encode(format) (through absolutePathInside)", v == ssa.Value(encCall), p.Pos(rm.Pos()), "got "+trunc(desc(v), 120))
-			// format given to Encode: the sibling builder, optionally through absolutePathInside
-			f := stripConv(encCall.Call.Args[1])
-			if ex, ok := f.(*ssa.Extract); ok && ex.Index == 0 {
-				if cl, ok := ex.Tuple.(*ssa.Call); ok && calleeName(&cl.Call) == "api.absolutePathInside" {
-					f = stripConv(cl.Call.Args[1])
-				}
+			c.Check("C31.delete.removes_encoded_name", fnName(del)+": os.Remove acts on Path{Start}.Encode(format) (through absolutePathInside)", v.v == ssa.Value(encCall), p.Pos(rm.Pos()), "got "+trunc(desc(v.v), 120))
+			// format given to Encode (looked at in the context the removed name reached it by):
+			// the sibling builder, optionally through absolutePathInside
+			encAt := hv{encCall, nil}
+			if v.v == ssa.Value(encCall) {
+				encAt = v
 			}
-			rp, nm, ft, ok := c31FormatBuilder(f)
+			f := encAt.at(encCall.Call.Args[1]).norm()
+			if in, ok := f.throughCall("api.absolutePathInside", 0, 1); ok {
+				f = in
+			}
+			rp, nm, ft, ok := c31FormatBuilderHV(f)
 			good := false
-			det := "format argument is not the sibling builder: " + trunc(desc(f), 120)
+			det := "format argument is not the sibling builder: " + trunc(desc(f.v), 120)
 			if ok {
 				// one configuration, found for the very name substituted
-				conf0 := func(v ssa.Value, field string) ssa.Value { // (FindPathConf(...)#0).field
-					u, ok := stripConv(v).(*ssa.UnOp)
+				conf0 := func(x hv, field string) hv { // (FindPathConf(...)#0).field
+					u, ok := x.v.(*ssa.UnOp)
 					if !ok {
-						return nil
+						return hv{}
 					}
 					fa, ok := u.X.(*ssa.FieldAddr)
 					if !ok || !fieldAddrIs(fa, "conf.Path", field) {
-						return nil
+						return hv{}
 					}
-					return fa.X
+					return x.at(fa.X).norm()
 				}
 				c1, c2 := conf0(rp, "RecordPath"), conf0(ft, "RecordFormat")
 				var fpc *ssa.Call
-				if ex, isEx := c1.(*ssa.Extract); isEx && ex.Index == 0 {
+				if ex, isEx := c1.v.(*ssa.Extract); isEx && ex.Index == 0 && c1.ctx == nil {
 					fpc, _ = ex.Tuple.(*ssa.Call)
 				}
-				good = c1 != nil && c1 == c2 && fpc != nil && calleeName(&fpc.Call) == "conf.FindPathConf" && fpc.Call.Args[1] == nm
-				det = fmt.Sprintf("recordPath=%s name=%s format=%s", trunc(desc(rp), 80), trunc(desc(nm), 60), trunc(desc(ft), 80))
+				good = c1.v != nil && c1.same(c2) && fpc != nil && fpc.Parent() == del && calleeName(&fpc.Call) == "conf.FindPathConf" && hv{fpc.Call.Args[1], nil}.norm().same(nm)
+				det = fmt.Sprintf("recordPath=%s name=%s format=%s", trunc(desc(rp.v), 80), trunc(desc(nm.v), 60), trunc(desc(ft.v), 80))
 				if good {
 					errNil := "(" + desc(fpc) + "#2 == nil)"
 					c.checkMustPassPred(p, del, "C31.delete.guards", fnName(del)+": os.Remove only after conf.FindPathConf succeeded",
